@@ -559,3 +559,7 @@ fn test_channel_error_upcast() {
 #[cfg(kani)]
 #[path = "/verif/kani/support.rs"]
 pub(crate) mod verif_kani_support;
+
+#[cfg(kani)]
+#[path = "/verif/kani/schema.rs"]
+pub(crate) mod verif_kani_schema;
